@@ -174,14 +174,14 @@ class P:
                 continue
             if self.at("let"):
                 self.next()
-                self.eat("mut")
+                is_mut = self.eat("mut")
                 pat = self.pattern()
                 if self.eat(":"):
                     self.skip_type({"=", ";"})
                 self.expect("=")
                 e = self.expr()
                 self.expect(";")
-                stmts.append(("let", pat, e))
+                stmts.append(("let", pat, e, bool(is_mut)))
                 continue
             e = self.expr()
             if self.peek()[0] == "op" and self.peek()[1] in ("=", "+=", "-="):
@@ -377,6 +377,9 @@ class P:
                     guard = self.expr(no_struct=True)
                 self.expect("=>")
                 body = self.expr()
+                if self.peek()[0] == "op" and self.peek()[1] in ("=", "+=", "-="):
+                    op = self.next()[1]
+                    body = ("assign", op, body, self.expr())
                 self.eat(",")
                 arms.append((pat, guard, body))
             self.expect("}")
@@ -491,7 +494,7 @@ def src_text(e):
     return "?"
 
 
-NOARG_STRUCTS = {"CompleteOnUnwind"}
+NOARG_STRUCTS = {"CompleteOnUnwind", "BufferedIter"}
 
 
 class Emitter:
@@ -906,6 +909,345 @@ class PEmitter(Emitter):
         return "(do\n" + "\n".join(pad + l for l in lines) + ")"
 
 
+
+def root_id(e):
+    """the variable at the root of a place expression (`x`, `x.f`, `x.f[i]`, `*x`)"""
+    while e[0] in ("field", "index", "paren", "unary"):
+        e = e[1] if e[0] != "unary" else e[2]
+    return e[1] if e[0] == "id" else None
+
+
+def assigned_in(e, acc):
+    """names assigned (`=`, `+=`, …) anywhere in an AST"""
+    if isinstance(e, tuple):
+        if e and e[0] == "assign":
+            r = root_id(e[2])
+            if r and r != "_":
+                acc.add(r)
+        for x in e:
+            assigned_in(x, acc)
+    elif isinstance(e, list):
+        for x in e:
+            assigned_in(x, acc)
+    return acc
+
+
+class MEmitter(PEmitter):
+    """program-tree emitter for functions with mutable locals / `&mut self`: statements whose value is not used (`if`,
+    `match`, assignments, `loop`) are emitted as do-elements so that Lean's `let mut` carries the mutation; a `loop` with
+    assigned variables threads them as its state (`m_loop_st`)."""
+
+    def __init__(self, *a, **kw):
+        super().__init__(*a, **kw)
+        self.loop_state = None      # text of the state tuple while emitting the body of a state loop
+
+    def ty_of(self, name):
+        for (n, ty) in reversed(self.scope):
+            if n == name:
+                return ty
+        return "Nat"
+
+    def do_block(self, e, ind):
+        if e[0] != "block":
+            return Emitter.do_block(self, e, ind)
+        saved = self.loop_state
+        lines = self.stmts(e[1], e[2], ind)
+        self.loop_state = saved
+        pad = " " * ind
+        return "(do\n" + "\n".join(pad + l for l in lines) + ")"
+
+    # a sequence of statements (+ final value) -> chunks; the first line of a chunk is relative, embedded lines are absolute
+    def stmts(self, stmts, final, ind, tail=None, capture=None):
+        lines = []
+        sub_scope = len(self.scope)
+        stmts = list(stmts)
+        i = 0
+        while i < len(stmts):
+            st = stmts[i]
+            if st[0] == "let" and st[1][0] == "pvar" and st[2][0] == "mcall" and st[2][2] == "complete_on_unwind":
+                g = st[1][1]
+                j = next((m for m in range(i + 1, len(stmts))
+                          if stmts[m] == ("expr", ("mcall", ("id", g), "disarm", []))), None)
+                if j is None:
+                    lines.append("let _ ← %s" % self.unsup("drop guard without disarm in the same block"))
+                    i += 1
+                    continue
+                ls, a = self.ex(st[2], ind)
+                lines += ls
+                lines.append("let %s := %s" % (lid(g), a))
+                self.scope.append((g, "CompleteOnUnwind"))
+                inner = stmts[i + 1:j]
+                declared = []
+                for s2 in inner:
+                    if s2[0] == "let":
+                        for v in pat_vars(s2[1], []):
+                            declared.append((v, len(s2) > 3 and s2[3]))
+                in_scope = {n for (n, _) in self.scope}
+                outer = sorted(v for v in assigned_in(inner, set()) if v in in_scope and v not in [d[0] for d in declared])
+                names = [d[0] for d in declared] + outer
+                mark = len(self.scope)
+                body = ["let mut %s := %s" % (lid(v), lid(v)) for v in outer]
+                body += self.stmts(inner, None, ind + 2, tail="pure (%s)" % ", ".join(lid(v) for v in names) if names else "pure ()")
+                del self.scope[mark:]
+                pad2 = " " * (ind + 2)
+                t = self.fresh()
+                lines.append("let %s ← m_guarded (Guard.drop fuel %s) (do\n%s)" % (t, lid(g), "\n".join(pad2 + l for l in body)))
+                for k, (v, is_mut) in enumerate(declared):
+                    proj = t if len(names) == 1 else proj_of(t, k, len(names))
+                    lines.append("let %s%s := %s" % ("mut " if is_mut else "", lid(v), proj))
+                    self.bind(v)
+                for k, v in enumerate(outer):
+                    kk = len(declared) + k
+                    proj = t if len(names) == 1 else proj_of(t, kk, len(names))
+                    lines.append("%s := %s" % (lid(v), proj))
+                t2 = self.fresh()
+                lines.append("let %s ← Guard.disarm fuel %s" % (t2, lid(g)))
+                i = j + 1
+                continue
+            if st[0] == "let":
+                ls, a = self.ex(st[2], ind)
+                lines += ls
+                is_mut = len(st) > 3 and st[3]
+                if st[1][0] == "pvar":
+                    lines.append("let %s%s := %s" % ("mut " if is_mut else "", lid(st[1][1]), a))
+                elif st[1][0] == "pwild":
+                    lines.append("let _ := %s" % a)
+                else:
+                    lines.append("let %s := %s" % (self.pat(st[1]), a))
+                for v in pat_vars(st[1], []):
+                    self.bind(v)
+            else:
+                lines += self.stmt_expr(st[1], ind)
+            i += 1
+        if capture is not None:
+            lines += self.value_stmt(final, ind, capture) if final is not None else ["%s := some ()" % capture]
+            lines.append("pure ()")
+        elif tail is not None:
+            if final is not None:
+                lines += self.stmt_expr(final, ind)
+            lines.append(tail)
+        elif final is None:
+            lines.append("pure ()")
+        elif final[0] in ("if", "match") and assigned_in(final, set()):
+            # the value of a branching expression whose branches assign: computed by do-level branches into a variable
+            r = self.fresh()
+            lines.append("let mut %s := none" % r)
+            lines += self.value_stmt(final, ind, r)
+            v = self.fresh()
+            lines.append("let %s ← m_the %s" % (v, r))
+            lines.append("pure %s" % v)
+        elif final[0] == "loop" and not has_node(final[1], "break"):
+            lines += self.stmt_expr(final, ind)
+            lines.append("m_unreachable")
+        else:
+            ls, a = self.ex(final, ind)
+            lines += ls
+            lines.append("pure %s" % a)
+        del self.scope[sub_scope:]
+        return lines
+
+    def value_stmt(self, e, ind, r):
+        """statements that leave the value of `e` in the mutable variable `r` (as `some value`)"""
+        k = e[0]
+        if k == "block":
+            return self.stmts(e[1], e[2], ind, capture=r)[:-1]
+        if k == "if" and e[3] is not None:
+            ls, c = self.ex(e[1], ind)
+            pad2 = " " * (ind + 2)
+            th = self.value_stmt(e[2], ind + 2, r) + ["pure ()"]
+            el = self.value_stmt(e[3], ind + 2, r) + ["pure ()"]
+            return ls + ["if %s = true then\n%s\n%selse\n%s" % (c, "\n".join(pad2 + l for l in th), " " * ind, "\n".join(pad2 + l for l in el))]
+        if k == "match":
+            ls, sc = self.ex(e[1], ind)
+            pad, pad4 = " " * ind, " " * (ind + 4)
+            parts = ["match %s with" % sc]
+            for (pat, guard, body) in e[2]:
+                mark = len(self.scope)
+                for v in pat_vars(pat, []):
+                    self.bind(v)
+                arm = self.value_stmt(body, ind + 4, r) + ["pure ()"]
+                parts.append("%s| %s => do\n%s" % (pad, self.pat(pat), "\n".join(pad4 + l for l in arm)))
+                del self.scope[mark:]
+            return ls + ["\n".join(parts)]
+        ls, a = self.ex(e, ind)
+        return ls + ["%s := some %s" % (r, a)]
+
+    MUT_FNS = {"pull"}       # generated `&mut self` functions: they return `(result, self)`
+
+    def has_mut_call(self, e):
+        if isinstance(e, tuple):
+            if e and e[0] == "mcall" and e[2] in self.MUT_FNS:
+                return True
+            return any(self.has_mut_call(x) for x in e)
+        if isinstance(e, list):
+            return any(self.has_mut_call(x) for x in e)
+        return False
+
+    def ex(self, e, ind):
+        # a call of a generated `&mut self` method on a place: the new receiver is written back
+        if e[0] == "mcall" and e[2] in self.MUT_FNS and root_id(e[1]) is not None:
+            recv, name, args = e[1], e[2], e[3]
+            ls, r = PEmitter.ex(self, recv, ind)
+            atoms = []
+            for x in args:
+                l, a = self.ex(x, ind)
+                ls += l
+                atoms.append(a)
+            rtxt = src_text(recv)
+            fn = "%s.%s" % (self.recv[rtxt][0], lid(name)) if rtxt in self.recv else "%s.%s" % (self.ns, lid(name))
+            t = self.fresh()
+            ls = ls + ["let %s ← %s fuel %s" % (t, fn, " ".join([r] + atoms))]
+            root = root_id(recv)
+            if recv[0] == "id":
+                ls.append("%s := %s.2" % (lid(root), t))
+            elif recv[0] == "field" and recv[1][0] == "id":
+                ls.append("%s := { %s with %s := %s.2 }" % (lid(root), lid(root), lid(recv[2]), t))
+            else:
+                ls.append("let _ ← %s" % self.unsup("&mut self call on a complex place"))
+            return ls, "%s.1" % t
+        # `opt.and_then(|p| body)` / `opt.map(|p| body)` whose body calls a `&mut self` method: do-level branches
+        if e[0] == "mcall" and e[2] in ("and_then", "map") and len(e[3]) == 1 and e[3][0][0] == "closure" and self.has_mut_call(e[3][0]):
+            ls, o = self.ex(e[1], ind)
+            clo = e[3][0]
+            r = self.fresh()
+            pad, pad4 = " " * ind, " " * (ind + 4)
+            mark = len(self.scope)
+            for pv in clo[1]:
+                for v in pat_vars(pv, []):
+                    self.bind(v)
+            arm = self.value_stmt(clo[2], ind + 4, r) + ["pure ()"]
+            del self.scope[mark:]
+            chunk = "match %s with\n%s| some %s => do\n%s\n%s| none => do\n%spure ()" % (
+                o, pad, " ".join(self.pat(pv) for pv in clo[1]), "\n".join(pad4 + l for l in arm), pad, pad4)
+            ls = ls + ["let mut %s := none" % r, chunk]
+            if e[2] == "and_then":
+                t = self.fresh()
+                return ls + ["let %s ← m_join %s" % (t, r)], t
+            return ls, r
+        # `place[i].take()`: the slot is emptied in place
+        if e[0] == "mcall" and e[2] == "take" and not e[3] and e[1][0] == "index" and e[1][1][0] == "field" and e[1][1][1][0] == "id":
+            obj, f = lid(e[1][1][1][1]), lid(e[1][1][2])
+            l2, idx = PEmitter.ex(self, e[1][2], ind)
+            t, t2 = self.fresh(), self.fresh()
+            return l2 + ["let %s ← m_index %s.%s %s" % (t, obj, f, idx),
+                         "let %s ← m_set_index %s.%s %s none" % (t2, obj, f, idx),
+                         "%s := { %s with %s := %s }" % (obj, obj, f, t2)], t
+        return PEmitter.ex(self, e, ind)
+
+    def arm(self, e, ind):
+        """the statements of an `if` branch / a `match` arm whose value is not used"""
+        if e[0] == "block":
+            return self.stmts(e[1], e[2], ind, tail="pure ()")
+        return self.stmt_expr(e, ind) + ["pure ()"]
+
+    def stmt_expr(self, e, ind):
+        k = e[0]
+        if k in ("block", "unsafe"):
+            b = e if k == "block" else e[1]
+            return self.stmts(b[1], b[2], ind, tail="pure ()")[:-1] or []
+        if k == "assign":
+            op, lhs, rhs = e[1], e[2], e[3]
+            ls, a = self.ex(rhs, ind)
+            if lhs == ("id", "_") and op == "=":
+                return ls
+            root = root_id(lhs)
+            if root is None:
+                return ls + ["let _ ← %s" % self.unsup("assignment to a complex place")]
+            cur_ls, cur = self.ex(lhs, ind)
+            if op in ("+=", "-="):
+                t = self.fresh()
+                ls = ls + cur_ls + ["let %s ← %s %s %s" % (t, "op_add" if op == "+=" else "op_sub", cur, a)]
+                a = t
+            # rebuild the place bottom-up: x := a | x := { x with f := a } | x.f[i] := a
+            if lhs[0] == "id":
+                return ls + ["%s := %s" % (lid(root), a)]
+            if lhs[0] == "field" and lhs[1][0] == "id":
+                return ls + ["%s := { %s with %s := %s }" % (lid(root), lid(root), lid(lhs[2]), a)]
+            if lhs[0] == "index" and lhs[1][0] == "field" and lhs[1][1][0] == "id":
+                l2, idx = self.ex(lhs[2], ind)
+                t = self.fresh()
+                f = lid(lhs[1][2])
+                return ls + l2 + ["let %s ← m_set_index %s.%s %s %s" % (t, lid(root), f, idx, a),
+                                  "%s := { %s with %s := %s }" % (lid(root), lid(root), f, t)]
+            return ls + ["let _ ← %s" % self.unsup("assignment to a complex place")]
+        if k == "if":
+            ls, c = self.ex(e[1], ind)
+            pad2 = " " * (ind + 2)
+            chunk = "if %s = true then\n%s" % (c, "\n".join(pad2 + l for l in self.arm(e[2], ind + 2)))
+            if e[3] is not None:
+                chunk += "\n%selse\n%s" % (" " * ind, "\n".join(pad2 + l for l in self.arm(e[3], ind + 2)))
+            return ls + [chunk]
+        if k == "match":
+            ls, sc = self.ex(e[1], ind)
+            pad, pad4 = " " * ind, " " * (ind + 4)
+            parts = ["match %s with" % sc]
+            for (pat, guard, body) in e[2]:
+                if guard is not None:
+                    parts.append("%s| %s => %s" % (pad, self.pat(pat), self.unsup("match guard")))
+                    continue
+                mark = len(self.scope)
+                for v in pat_vars(pat, []):
+                    self.bind(v)
+                parts.append("%s| %s => do\n%s" % (pad, self.pat(pat), "\n".join(pad4 + l for l in self.arm(body, ind + 4))))
+                del self.scope[mark:]
+            return ls + ["\n".join(parts)]
+        if k == "break":
+            if self.loop_state is not None:
+                return ["let _ ← (m_break_st %s : PF _ Unit)" % self.loop_state]
+            return ["let _ ← (m_break : PF _ Unit)"]
+        if k == "loop":
+            in_scope = [n for (n, _) in self.scope]
+            state = [v for v in dict.fromkeys(in_scope) if v in assigned_in(e[1], set())]
+            if not state:
+                ls, _ = PEmitter.ex(self, e, ind)
+                return ls
+            if has_node(e[1], "return"):
+                return ["let _ ← %s" % self.unsup("return inside a loop with mutable state")]
+            self.nloops += 1
+            name = "%s.%s.loop%d" % (self.ns, lid(self.fname), self.nloops)
+            used = ids_in(e[1], set())
+            params = [(n, ty) for (n, ty) in dict(self.scope).items() if n in used and n not in state]
+            st_ty = " × ".join(self.ty_of(v) for v in state)
+            st_tuple = "(%s)" % ", ".join(lid(v) for v in state) if len(state) > 1 else lid(state[0])
+            saved = self.loop_state
+            self.loop_state = st_tuple
+            mark = len(self.scope)
+            body = ["let mut %s := %s" % (lid(v), "st" if len(state) == 1 else proj_of("st", k2, len(state))) for k2, v in enumerate(state)]
+            body += self.stmts(e[1][1], e[1][2], 2, tail="pure %s" % st_tuple)
+            del self.scope[mark:]
+            self.loop_state = saved
+            sig = " (fuel : Nat)" + "".join(" (%s : %s)" % (lid(n), ty) for (n, ty) in params) + " (st : %s)" % st_ty
+            text = ("/-- the body of `loop {}` number %d of `%s::%s`; its state: %s -/\ndef %s {ρ : Type}%s : PF (Sum (%s) ρ) (%s) :=\n  (do\n%s)\n"
+                    % (self.nloops, self.ns, self.fname, ", ".join(state), name, sig, st_ty, st_ty, "\n".join("  " + l for l in body)))
+            self.hoisted.append((name, text))
+            t = self.fresh()
+            out = ["let %s ← m_loop_st fuel %s (%s fuel%s)" % (t, st_tuple, name, "".join(" " + lid(n) for (n, _) in params))]
+            for k2, v in enumerate(state):
+                out.append("%s := %s" % (lid(v), t if len(state) == 1 else proj_of(t, k2, len(state))))
+            return out
+        ls, _ = self.ex(e, ind)
+        return ls
+
+
+def fn_body_mut(em, ast, ind, mut_self):
+    """body of a function emitted by MEmitter; a `&mut self` function returns its result paired with the new `self`"""
+    lines = (["let mut self := self"] if mut_self else []) + em.stmts(ast[1], ast[2], ind)
+    if mut_self:
+        assert lines[-1].startswith("pure ")
+        lines[-1] = "pure (%s, self)" % lines[-1][5:]
+    pad = " " * ind
+    return "(do\n" + "\n".join(pad + l for l in lines) + ")"
+
+
+def proj_of(t, k, n):
+    """k-th component of an n-tuple (right-nested pairs)"""
+    if n == 1:
+        return t
+    if k == n - 1:
+        return t + "".join(".2" for _ in range(n - 1))
+    return t + "".join(".2" for _ in range(k)) + ".1"
+
+
 # ---------------------------------------------------------------------------------------------------
 # targets
 
@@ -995,6 +1337,14 @@ PTARGETS = [
     dict(ns="Iter", file="iter/atomic_iter.rs", impl=r"trait AtomicIter<", fns=["fetch_one"], self_ty="IterSelf"),
     dict(ns="Iter", file=IT, impl=r"ConcurrentIter for ConIterOfIter", fns=["next_id_and_value", "next_chunk", "skip_to_end"], self_ty="IterSelf"),
 ]
+PTARGETS += [
+    dict(ns="BufIter", file="iter/buffered/iter.rs", impl=r"BufferedChunk<T> for BufferIter", fns=["chunk_size", "pull"], self_ty="BufIterSelf",
+         params={"iter": "IterSelf"}, recv={"iter": "Iter"}, mutable=["pull"], lets={"core_iter": "WrappedH", "guard": "CompleteOnUnwind"}),
+    dict(ns="BufferedIterIter", file="iter/buffered/buffered_iter.rs", impl=r"impl<'a, T, B> BufferedIter", fns=["next"], self_ty="BufferedIterSelfP",
+         recv={"self.atomic_iter": "Iter", "self.buffered_iter": "BufIter"}, mutable=["next"]),
+    dict(ns="ChunkIt", file="iter/buffered/iter.rs", impl=r"Iterator for BufferedIter<'a, T>", fns=["next"], self_ty="BufferedIter", mutable=["next"],
+         lets={"next": "Option Nat"}),
+]
 P_OUT = os.path.join(os.path.dirname(OUT), "ProtoIter.lean")
 
 
@@ -1015,8 +1365,13 @@ def main_prog():
                 ast = ("block", ast[1] + ([("expr", ast[2])] if ast[2] is not None else []) + [("expr", ("mcall", ("id", "self"), "drop", []))], None)
             scope = ([("self", t["self_ty"])] if has_self else []) + [(n, ty) for (n, ty) in plist]
             recv = {"guard": ("Guard", nsf["Guard"])}
-            em = PEmitter(t["ns"], nsf[t["ns"]], recv, [], fn, scope, t.get("lets", {}))
-            term = em.do_block(ast, 2)
+            for k, v in t.get("recv", {}).items():
+                recv[k] = (v, nsf.get(v, set()))
+            is_mut = fn in t.get("mutable", [])
+            cls = MEmitter if is_mut else PEmitter
+            em = cls(t["ns"], nsf[t["ns"]], recv, [], fn, scope, t.get("lets", {}))
+            mut_self = is_mut and re.search(r"&\s*mut\s+self", params) is not None
+            term = fn_body_mut(em, ast, 2, mut_self) if is_mut else em.do_block(ast, 2)
             sig = " {ρ' : Type} (fuel : Nat)" + "".join(" (%s : %s)" % (lid(n), ty) for (n, ty) in scope)
             for (hn, htext) in em.hoisted:
                 chunks.append((hn, htext, htext))
